@@ -49,13 +49,16 @@ Fixpoint obs (n : node) : onode :=
 Definition obs_tree (t : tree) : otree :=
   {| o_items := map obs (t_items t); o_post := map obs (t_post t); o_fin := map obs (t_fin t) |}.
 
-(* all external-source flags with their nesting depth, all template capability pairs *)
-Fixpoint ext_flags (depth : nat) (n : onode) : list (nat * bool) :=
+(* capability flags found on the objects: an item's own flag, the flags of everything nested below it,
+   and the capability pairs of template objects at any depth *)
+Fixpoint all_flags (n : onode) : list bool :=
   match n with
-  | OExt _ f => [(depth, f)]
-  | ONest l => flat_map (ext_flags (S depth)) l
+  | OExt _ f => [f]
+  | ONest l => flat_map all_flags l
   | _ => []
   end.
+Definition top_flags (n : onode) : list bool := match n with OExt _ f => [f] | _ => [] end.
+Definition nested_flags (n : onode) : list bool := match n with ONest l => flat_map all_flags l | _ => [] end.
 Fixpoint tpl_caps (n : onode) : list (option str * bool * option (list str)) :=
   match n with
   | OTpl v tv ap => [(v, tv, ap)]
@@ -63,7 +66,7 @@ Fixpoint tpl_caps (n : onode) : list (option str * bool * option (list str)) :=
   | _ => []
   end.
 Definition tree_nodes (t : otree) : list onode := o_items t ++ o_post t ++ o_fin t.
-Definition tree_ext_flags (t : otree) := flat_map (ext_flags 0) (tree_nodes t).
+Definition tree_ext_flags (t : otree) := flat_map all_flags (tree_nodes t).
 Definition tree_tpl_caps (t : otree) := flat_map tpl_caps (tree_nodes t).
 
 (* ---------- the property on one observation ---------- *)
@@ -85,7 +88,7 @@ Definition ap_within (physb : str -> list str) (observed inforce : option (list 
   | Some o, Some e => forallb (fun b => existsb (fun b' => is_prefixb (physb b') (physb b)) e) o
   end.
 Definition flags_permitted (a : args) (physb : str -> list str) (t : otree) : bool :=
-  forallb (fun df => implb (snd df) (a_ext a)) (tree_ext_flags t) &&
+  forallb (fun f => implb f (a_ext a)) (tree_ext_flags t) &&
   forallb (fun c => let '(_, tv, ap) := c in implb tv (a_tv a) && ap_within physb ap (a_ap a)) (tree_tpl_caps t).
 
 (* without a grant for vars execution no successfully loaded pipeline contains a template with vars *)
